@@ -120,6 +120,33 @@ theorem refusal_leaves_spectrum (s : Spectrum) :
   · intro tol e; simp only [trim]; repeat' split
     all_goals simp
 
+/-- … the same for pad; and crop: when crop raises (IndexError on an empty or emptied grid) the spectrum it leaves is the
+input cropped at the lower limit — in particular still a selection of the input's samples (`crop_retained_samples_unaltered`)
+— and crop on an already empty spectrum leaves it as it was -/
+theorem refusal_leaves_spectrum_pad_crop (s : Spectrum) :
+    (∀ e0 e1 sm ed vl vr e, (pad e0 e1 sm ed vl vr s).2 = some e → (pad e0 e1 sm ed vl vr s).1 = s) ∧
+    (∀ lo hi, s.wave = [] → crop lo hi s = (s, some .indexError)) ∧
+    (∀ lo hi e, (crop lo hi s).2 = some e → e = .indexError ∧ (crop lo hi s).1.wave = []) := by
+  refine ⟨?_, ?_, ?_⟩
+  · intro e0 e1 sm ed vl vr e; simp only [pad]; repeat' split
+    all_goals simp
+  · intro lo hi h; simp [crop, h]
+  · intro lo hi e
+    rw [crop_eq_stages]
+    cases hw : s.wave.head? with
+    | none =>
+      have : s.wave = [] := by simpa using hw
+      simp [this]; exact fun h => h.symm
+    | some w0 =>
+      simp only [cropStage2]
+      cases hl : (cropStage1 lo w0 s).wave.getLast? with
+      | none =>
+        have : (cropStage1 lo w0 s).wave = [] := by simpa using hl
+        simp [this]; exact fun h => h.symm
+      | some wl =>
+        simp only []
+        split <;> simp
+
 
 /-! ### integration -/
 
@@ -285,11 +312,79 @@ theorem bin_length_trapz (s : Spectrum) (sym : Bool) (fl fr : ℚ) (pp : Option 
     have := binRaw_length_trapz s sym fl fr c raw hraw
     split at h <;> cases h <;> simp [this]
 
-/-- Tᵖ: trapezoid bins of non-negative samples over increasing edges are non-negative. Gap (checked by the oracle
-only): that the linear interpolant of a non-negative spectrum with non-negative fill is non-negative at every edge and
-that the edges of increasing centres are increasing. -/
-theorem bin_trapz_nonneg_partial (x f : List ℚ) (hx : StrictInc x) (hf : ∀ v ∈ f, 0 ≤ v) :
-    ∀ b ∈ trapzBins x f, 0 ≤ b := trapzBins_nonneg x f hx hf
+/-- Simpson binning also returns one value per requested centre (both end treatments, float or integer-dtype centres) -/
+theorem binRaw_length_simps (s : Spectrum) (sym intC : Bool) (fl fr : ℚ) (c bins : List ℚ)
+    (h : binRaw s true sym fl fr c intC = .ok bins) : bins.length = c.length := by
+  simp only [binRaw, if_true] at h
+  split at h
+  · cases h
+  · rename_i hc
+    have hc2 : 2 ≤ c.length := by omega
+    split at h
+    · cases h
+    · rename_i f hf
+      have hl := sample_length _ _ _ _ _ hf
+      have hx := simpsPoints_length sym intC c hc2
+      cases h
+      exact simpsBins_length c.length _ _ hl.symm hx
+
+/-- one bin per centre for both rules, with or without power preservation -/
+theorem bin_length (s : Spectrum) (simps sym intC : Bool) (fl fr : ℚ) (pp : Option (Option ℚ)) (c bins : List ℚ)
+    (h : bin s simps sym fl fr pp c intC = .ok bins) : bins.length = c.length := by
+  simp only [bin] at h
+  split at h
+  · cases h
+  · rename_i raw hraw
+    have hr : raw.length = c.length := by
+      cases simps
+      · have hraw' : binRaw s false sym fl fr c = .ok raw := by
+          simpa [binRaw] using hraw
+        exact binRaw_length_trapz s sym fl fr c raw hraw'
+      · exact binRaw_length_simps s sym intC fl fr c raw hraw
+    split at h <;> cases h <;> simp [hr]
+
+/-- non-negativity of `bin` itself (trapezoid rule): a well-formed spectrum with non-negative values and non-negative
+fill, strictly increasing centres ⇒ every bin is non-negative — without power preservation, and with it (the
+normalisation integral `integrate s (min c) (max c)` and the raw sum are both non-negative) -/
+theorem bin_trapz_nonneg (s : Spectrum) (hwf : WF s) (hv : ∀ v ∈ s.value, 0 ≤ v) (sym : Bool) (fl fr : ℚ)
+    (hfl : 0 ≤ fl) (hfr : 0 ≤ fr) (c : List ℚ) (hc : StrictInc c) (pp : Bool) (bins : List ℚ)
+    (h : bin s false sym fl fr (if pp then some none else none) c = .ok bins) : ∀ b ∈ bins, 0 ≤ b := by
+  simp only [bin, binRaw, Bool.false_eq_true, if_false] at h
+  split at h
+  · cases h
+  · rename_i raw hraw
+    split at hraw
+    · cases hraw
+    · split at hraw
+      · cases hraw
+      · rename_i f hf
+        simp only [sample] at hf
+        split at hf
+        · cases hf
+        · cases hf; cases hraw
+          have hf0 : ∀ v ∈ (trapzEdges sym c).map (interpAt s.wave s.value fl fr), 0 ≤ v := by
+            intro v hv'
+            obtain ⟨x, _, rfl⟩ := List.mem_map.mp hv'
+            exact interpAt_nonneg _ _ _ _ _ hwf.1 hv hfl hfr
+          have hraw0 := trapzBins_nonneg_adj _ _ (adjLe_trapzEdges sym c hc) hf0
+          cases pp
+          · simp only [Bool.false_eq_true, if_false] at h
+            cases h; exact hraw0
+          · simp only [if_true] at h
+            cases h
+            intro b hb
+            obtain ⟨r, hr, rfl⟩ := List.mem_map.mp hb
+            have hS := sumL_nonneg _ hraw0
+            have hI : 0 ≤ binNorm s c none := by
+              simp only [binNorm]
+              split
+              · simp only [integrate]
+                apply trapz_nonneg
+                · exact adjLe_of_strictInc _ (hwf.1.sublist (keepMask_sublist _ _))
+                · intro y hy; exact hv y (mem_keepMask _ _ _ hy)
+              · exact le_refl _
+            exact mul_nonneg (hraw0 r hr) (div_nonneg hI hS)
+
 
 /-- with power preservation the trapezoid bins sum to the spectrum's (trapezoid) integral over the span of the centres,
 `integrate s (min centres) (max centres)` — provided the un-normalised bins do not sum to zero (then the code divides 0/0) -/
